@@ -179,8 +179,8 @@ PROPS = {
     },
     "C10": {
         "props_module": "RedbModel.Props.C10",
-        "streams": [("table", [], "table"), ("mm", [], "mm")],
-        "rule": "images of the storage after durable commits and clean closes of the C04 and C09 program generators (normal tables with u64/bytes/str keys incl. shortened separators and multi-page values; multimaps with inline and subtree value sets; page sizes 512..16384) are decoded by the Lean format checker following only the documented format; each `img check` line is one evaluation; other lines of the streams are the C04/C09 correspondence",
+        "streams": [("table", [], "table"), ("mm", [], "mm"), ("history", ["--focus", "c10"], "history")],
+        "rule": "images of the storage after durable commits and clean closes of the C04 and C09 program generators (normal tables with u64/bytes/str keys incl. shortened separators and multi-page values; multimaps with inline and subtree value sets; page sizes 512..16384) are decoded by the Lean format checker following only the documented format; each `img check` line is one evaluation; other lines of the streams are the C04/C09 correspondence; third stream: whole-database histories (focus c10: tables and a multimap, savepoints, non-durable commits, reopen, crash-reopen, compaction attempts that relocate pages and restage catalog entries) whose image after every completed compaction, every reopen and a third of the durable commits goes to the Lean checker together with the expected contents and entry counts",
         "trusted_base": BASE_TRUST + ["the Lean decoder Model/Format.lean is itself the specification of the file format (written from docs/design.md and the accessors); XXH3-128 is the Lean port Model/Xxh3.lean validated against the real function on 1109 inputs"],
         "assumptions": ["only the primary commit slot is checked; type names inside table definitions are decoded but not compared"],
         "explanation": "Lean: soundness of the executable checker (checkImage = ok implies checksums match from slot to leaves, keys strictly increasing, separators bound subtrees, uniform depth, counts match, no page twice / overlapping), routing = sorted-list lookup; correspondence: every committed image of the generators passes the checker and decodes to the contents the API returned",
@@ -234,7 +234,7 @@ PROPS = {
         "rule": "scenarios per base database: history then drop; read-only open of clean / unclean file; failing opens (bad magic, bad geometry, 4 truncations, 3 extensions, aborted repair, an I/O error at every sampled call index of the open path of a clean and an unclean file, once / permanently); Database dropped while a write transaction is live (commit/abort/drop); read transaction outliving the Database; forced schedules: a reader parked (pause point backend.read, cache 0) before its k-th backend read while another thread drops the Database (DESIGN F1, fixed); every scenario's call stream goes through the Lean contract automaton",
         "trusted_base": BASE_TRUST + ["bounds (read/write inside the current length, never shorter than a page in use) are checked by the recording backend and the history harness on the implementation, not by a theorem about the code"],
         "assumptions": ["schedules: only the close-vs-in-flight-read race is forced (reader parked between the closed-latch test and each of its backend reads while another thread drops the Database); the other scenarios are single-threaded"],
-        "explanation": "Lean: automaton theorems (accepted stream = exactly one close, as the last call; read-only stream has no mutation), layout arithmetic (an in-range page lies inside the file; regions disjoint); correspondence: recorded call streams accepted; oracle: backend monitor (bounds, close count, call after close, read-only mutation)",
+        "explanation": "Lean: close-guard interleaving model (no call after / overlapping close in any reachable state, for any number of threads; counter-examples for the unguarded variants), automaton theorems (accepted stream = exactly one close, as the last call; read-only stream has no mutation), layout arithmetic (an in-range page lies inside the file; regions disjoint); correspondence: recorded call streams accepted; oracle: backend monitor (bounds, close count, call after close, read-only mutation)",
     },
     "C12": {
         "props_module": "RedbModel.Props.C12",
